@@ -83,6 +83,11 @@ package jid
 //@ spec ecnt(s []byte, i int) int = ite(i <= 0, 0, ecnt(s, i-1) + ite(isE(s, i-1), 1, 0))
 //@ spec dec(a byte, b byte) byte = hexval(a)<<4 | hexval(b)
 
+// undet(s, p): whether an escape sequence starts at p cannot be decided
+// without the bytes that follow s. A call that is not at EOF must not consume
+// such a position, otherwise the result depends on how the input is chunked.
+//@ spec undet(s []byte, p int) bool = 0 <= p && p < len(s) && s[p] == '\\' && (p == len(s)-1 || (p == len(s)-2 && ishexS(s[p+1])))
+
 //@ lemma ecntFlat(s []byte, a int, b int) induct b
 //@   requires 0 <= a && a <= b
 //@   requires forall j int :: a <= j && j < b ==> s[j] != '\\'
@@ -98,10 +103,12 @@ package jid
 //@   ensures[C16] !isE(src, nSrc-1) && !isE(src, nSrc-2)
 //@   ensures[C16] err == transform.ErrShortSrc ==> !atEOF && nSrc < len(src) && src[nSrc] == '\\' && (nSrc == len(src)-1 || (nSrc == len(src)-2 && ishexS(src[nSrc+1])))
 //@   ensures[C16] err == transform.ErrShortDst ==> nSrc < len(src) && nDst == len(dst)
+//@   ensures[C16] !atEOF ==> !(nSrc > len(src)-1 && undet(src, len(src)-1)) && !(nSrc > len(src)-2 && undet(src, len(src)-2))
 //@   loop 1
 //@     invariant 0 <= nSrc && nSrc <= len(src) && 0 <= nDst && nDst <= len(dst)
 //@     invariant nDst == nSrc - 2*ecnt(src, nSrc)
 //@     invariant !isE(src, nSrc-1) && !isE(src, nSrc-2)
+//@     invariant !atEOF ==> !(nSrc > len(src)-1 && undet(src, len(src)-1)) && !(nSrc > len(src)-2 && undet(src, len(src)-2))
 //@     decreases len(src) - nSrc
 //@   callsite shouldUnescape#1
 //@     assert ecnt(src, nSrc+idx) == ecnt(src, nSrc)
@@ -113,7 +120,9 @@ package jid
 //@   ensures[C16] err == nil ==> n == len(src)
 //@   ensures[C16] err == transform.ErrEndOfSpan ==> isE(src, n)
 //@   ensures[C16] err == transform.ErrShortSrc ==> !atEOF && n < len(src) && src[n] == '\\' && (n == len(src)-1 || (n == len(src)-2 && ishexS(src[n+1])))
+//@   ensures[C16] !atEOF ==> !(n > len(src)-1 && undet(src, len(src)-1)) && !(n > len(src)-2 && undet(src, len(src)-2))
 //@   loop 1
 //@     invariant 0 <= n && n <= len(src)
 //@     invariant forall p int :: 0 <= p && p < n ==> !isE(src, p)
+//@     invariant !atEOF ==> !(n > len(src)-1 && undet(src, len(src)-1)) && !(n > len(src)-2 && undet(src, len(src)-2))
 //@     decreases len(src) - n
